@@ -4,8 +4,11 @@ import KawinV.Model.PBMGrid
 driver for the size-class grid model (Float instance).
 
 `grid.run cMin cMax bins minBins maxBins nitems item*` — one line = initial grid + whole sequence.
-items:  reset T|F | add k | change cMin cMax none|bins T|F | adjust T|F | update <list> | backup |
-        revert | setpsd <list> | load <list> | adaptive T|F | mom k <N> <w>   (query, no state change)
+items:  reset T|F | add k | change cMin cMax none|bins T|F | adjust T|F | update t <list> | backup |
+        revert | setpsd <list> | load <list> | adaptive T|F | enablerec | record t | setrec t | saverec |
+        loadrec | mom k <N> <w>   (query, no state change)
+state:  min max bins adaptive psd bounds size prevPsd prevBounds recording nrows widthB widthP
+        lastRowB lastRowP lastTime sumB sumP sumT
 answer: `I <orig...> <state>` then per item `S <state>` (`adjust` appends `R chg newIdx`),
         `Q ...` for a query, `E` at the first raising operation (the rest is dropped).
 An array equal bit-for-bit to the same array of the previous state is sent as `=`.
@@ -34,7 +37,12 @@ def item : P Item := do
       let a ← flt; let b ← flt; let n ← optNat; let r ← bool
       pure (.op (.change a b n r))
   | "adjust" => do let b ← bool; pure (.op (.adjust b))
-  | "update" => do let l ← flts; pure (.op (.update l))
+  | "update" => do let t ← flt; let l ← flts; pure (.op (.update t l))
+  | "enablerec" => pure (.op .enableRec)
+  | "record" => do let t ← flt; pure (.op (.record t))
+  | "setrec" => do let t ← flt; pure (.op (.setRecorded t))
+  | "saverec" => pure (.op .saveRec)
+  | "loadrec" => pure (.op .loadRec)
   | "backup" => pure (.op .backup)
   | "revert" => pure (.op .revert)
   | "setpsd" => do let l ← flts; pure (.op (.setPsd l))
@@ -51,10 +59,17 @@ def arr (prev : Option (List Float)) (x : List Float) : String :=
   | some p => if sameBits p x then "=" else flist x
   | none => flist x
 
+def fsum (l : List Float) : Float := l.foldl (· + ·) 0.0
+
 def dump (prev : Option St) (s : St) : String :=
   " ".intercalate [fout s.min, fout s.max, toString s.bins, bstr s.adaptive,
     arr (prev.map (·.psd)) s.psd, arr (prev.map (·.bounds)) s.bounds, arr (prev.map (·.size)) s.size,
-    arr (prev.map (·.prevPsd)) s.prevPsd, arr (prev.map (·.prevBounds)) s.prevBounds]
+    arr (prev.map (·.prevPsd)) s.prevPsd, arr (prev.map (·.prevBounds)) s.prevBounds,
+    bstr s.recording, toString s.recBins.length, toString (rowWidth s.recBins), toString (rowWidth s.recPsd),
+    arr (prev.map (fun p => p.recBins.getLast?.getD [])) (s.recBins.getLast?.getD []),
+    arr (prev.map (fun p => p.recPsd.getLast?.getD [])) (s.recPsd.getLast?.getD []),
+    fout (s.recTime.getLast?.getD 0.0),
+    fout (fsum (s.recBins.map fsum)), fout (fsum (s.recPsd.map fsum)), fout (fsum s.recTime)]
 
 def optNatStr : Option Nat → String
   | none => "none"
